@@ -1,0 +1,35 @@
+//go:build verif
+
+package mcap
+
+// Read-only accessors for verification builds (build tag "verif"). Nothing in
+// this file is compiled into a normal build.
+
+// VerifIterStats reports, for an index-based MessageIterator, the number of
+// chunk slots it has allocated, how many of them still hold unread messages,
+// and the total capacity in bytes of the slots' decompressed-chunk buffers.
+// ok is false for any other iterator.
+func VerifIterStats(it MessageIterator) (slots, live int, capBytes uint64, ok bool) {
+	ii, isIndexed := it.(*indexedMessageIterator)
+	if !isIndexed {
+		return 0, 0, 0, false
+	}
+	for i := range ii.chunkSlots {
+		slots++
+		if ii.chunkSlots[i].unreadMessages > 0 {
+			live++
+		}
+		capBytes += uint64(cap(ii.chunkSlots[i].buf))
+	}
+	return slots, live, capBytes, true
+}
+
+// VerifIterScratchCap reports the capacity of the iterator's compressed-record
+// scratch buffer and the number of pending message index entries.
+func VerifIterScratchCap(it MessageIterator) (recordBufCap uint64, pendingIndexes int, ok bool) {
+	ii, isIndexed := it.(*indexedMessageIterator)
+	if !isIndexed {
+		return 0, 0, false
+	}
+	return uint64(cap(ii.recordBuf)), len(ii.messageIndexes) - ii.curMessageIndex, true
+}
